@@ -39,6 +39,7 @@ pub fn replay_calls(cfg: &Cfg, calls: &[WCall], burst_ix: usize, cuts: &[usize])
     let mut w = Watch::new("B", cfg.role, cfg.ver, cfg.pid32, cfg.opts());
     w.vectored = cfg.vectored;
     w.trace = Some(vec![]);
+    w.read_past_close = true;
     let mut i = 0;
     let mut b = 0usize;
     while i < calls.len() && !w.failed() {
@@ -144,6 +145,7 @@ pub fn run_reference(cfg: &Cfg, ops: &[Op]) -> Solo {
     let mut s = Solo::new(cfg.clone());
     s.w.trace = Some(vec![]);
     s.w.calls = Some(vec![]);
+    s.w.read_past_close = true;
     for op in ops {
         s.exec(op);
         if s.w.failed() {
@@ -253,6 +255,7 @@ pub fn fork(kind: ForkKind, cfg_a: &Cfg, cfg_b: &Cfg, head_a: &[Op], head_b: &[O
             b.exec(&Op::SetPing { ms: Some(ms) });
         }
         b.now_ms = a.now_ms;
+        b.alt = a.alt;
     }
     if kind == ForkKind::Crash {
         b.now_ms = a.now_ms;
